@@ -19,6 +19,7 @@ batch as exactly one result event built from a clone of the same name; (R3) coun
 each Step variant maps to the test event of the matching kind; (R4) the suite verdict (= C01.R5); (R5) JUnit: the
 event deciding a test case's result is never a skipped failure and the (event -> success/skipped/failure) table.
 Declined: JSON, JUnit and terminal writers, and the parsed-back content of any report (document text is runtime data).
+Added after the second seeded round: (R6) Cucumber JSON: before a Feature / Element entry is pushed all existing entries of that list are searched (parser-error entries excepted).
 """
 DECLINED = ["Cucumber JSON writer", "JUnit XML writer beyond the outcome classification of a test case (R5)", "terminal (Basic) writer", "well-formedness / escaping of any document",
             "suite totals as numbers"]
